@@ -151,6 +151,13 @@ def coq_make(targets, timeout=3000):
             os.path.getmtime(os.path.join(COQ, "Makefile")) < os.path.getmtime(os.path.join(COQ, "_CoqProject")):
         subprocess.run(["coq_makefile", "-f", "_CoqProject", "-o", "Makefile"], cwd=COQ, check=True,
                        capture_output=True)
+    # a dependency file left incomplete by an interrupted build would be taken for up to date: it must name every listed file
+    dep = os.path.join(COQ, ".Makefile.d")
+    if os.path.exists(dep):
+        dtxt = open(dep, errors="replace").read()
+        listed = [l.strip() for l in open(os.path.join(COQ, "_CoqProject")) if l.strip().endswith(".v")]
+        if any((f[:-2] + ".vo") not in dtxt for f in listed):
+            os.remove(dep)
     # every coqc under a memory cap (a runaway proof must fail the obligation, not take the machine down)
     p = subprocess.run(["timeout", str(timeout), "bash", "-c", "ulimit -v %d; exec make -k -j%d %s" % (COQ_MEM_KB, NCPU, " ".join(targets))], cwd=COQ,
                        capture_output=True, text=True)
